@@ -845,6 +845,42 @@ theorem unbiased_partial (total : α) (aI : List (α × α)) (ha : ∀ p ∈ aI,
     rw [ih (fun p hp => ha p (by simp [hp]))]
     field_simp
 
+/-! ## 6. the grid as a state machine: total volume over every history of activations / re-parenting -/
+
+theorem grid_step_vols (g : Grid α) (op : GridOp) : (g.step op).vols = g.vols := by
+  cases op <;> simp [Grid.step]
+  split_ifs <;> rfl
+
+/-- after any sequence of `set_active('all' | i)`, `unparent_all_voxels`, `parent_all_voxels` and individual
+re-parenting, the grid's total volume is still the sum of the volumes of **all** its voxels -/
+theorem grid_total_history (g : Grid α) (ops : List GridOp) :
+    (g.run ops).total = g.vols.sum ∧ (g.run ops).vols = g.vols := by
+  unfold Grid.run
+  induction ops generalizing g with
+  | nil => exact ⟨total_volume_sum _, rfl⟩
+  | cons op ops ih =>
+    simp only [List.foldl_cons]
+    obtain ⟨h1, h2⟩ := ih (g.step op)
+    rw [grid_step_vols] at h1 h2
+    exact ⟨h1, h2⟩
+
+/-- … at every intermediate step, and whatever the `active=` constructor argument -/
+theorem grid_trace_const (g : Grid α) (ops : List GridOp) : ∀ t ∈ g.trace ops, t = g.vols.sum := by
+  induction ops generalizing g with
+  | nil => intro t ht; simp [Grid.trace] at ht
+  | cons op ops ih =>
+    intro t ht
+    simp only [Grid.trace, List.mem_cons] at ht
+    rcases ht with e | e
+    · rw [e]; unfold Grid.total; rw [total_volume_sum, grid_step_vols]
+    · have := ih (g.step op) t e
+      rwa [grid_step_vols] at this
+
+theorem grid_ctor_total (vols : List α) (active : Option Nat) : (Grid.mk' vols active).total = vols.sum := by
+  unfold Grid.total
+  rw [total_volume_sum]
+  cases active <;> rfl
+
 /-! ## non-vacuity and the float-gap witness (over ℚ) -/
 
 /-- an L-shaped hexagon: area 3, same for every rotation and for the reversed listing -/
